@@ -384,6 +384,15 @@ class SelectedMailbox:
         """Marks the selected mailbox as having been deleted."""
         self._is_deleted = True
 
+    def unsilence(self) -> None:
+        """Forgets the results registered by :meth:`.silence`. Called when the
+        command that silenced them failed: no fork follows it, and they must
+        not suppress the FETCH response of a later change.
+
+        """
+        self._silenced_flags.clear()
+        self._silenced_sflags.clear()
+
     def close(self) -> None:
         """Called when the session deselects the mailbox: this object and its
         forks will no longer be assigned the ``\\Recent`` flag of new
